@@ -12,7 +12,7 @@ CRASH_RULE = ('write histories (sync/non-sync mix, flushes, manual compactions, 
               'Disk.Ev and must satisfy Conforms/ConformsStrict (hypothesis of the durability theorems); non-trivial = >= 5 non-empty recovered images; distinct = distinct counters')
 
 
-def run_crash(pid, tier, tags, theorems, imports, targets, variants, follow, quick=(10, 35, 45), thorough=(120, 90, 400), extra=None):
+def run_crash(pid, tier, tags, theorems, imports, targets, variants, follow, quick=(10, 35, 45), thorough=(60, 80, 150), extra=None):
     chk = Check(pid, tier)
     lean_stage(chk, theorems, imports, list(targets) + ['tracecheck'])
     n, nops, points = quick if tier == 'quick' else thorough
